@@ -74,6 +74,6 @@ func run(c *props.Ctx) {
 	c.R.Floor("UNW-1", 1)
 	c.R.Floor("LAY-4", 22)
 	c.R.Floor("NAME-1", 5)
-	c.R.Floor("SENT-1", 15)
+	c.R.Floor("SENT-1", 19)
 	c.R.Floor("CFG-1", 3)
 }
